@@ -192,7 +192,8 @@ func (c *Client) Get(key []byte) ([]byte, string) {
 	c.track(key)
 	n := c.callBegin("get", Hx(key))
 	e, err := c.txn.txn.Get(context.Background(), key)
-	if err != nil && !tikverr.IsErrNotFound(err) {
+	if err != nil {
+		// a key without a visible value answers `err notfound`
 		c.callEnd(n, "get", errRes(err), nil)
 		return nil, Classify(err)
 	}
@@ -282,13 +283,36 @@ func (c *Client) Set(key, val []byte) string {
 	return Classify(err)
 }
 
-// Insert = Set with the presume-key-not-exists flag (how TiDB writes an INSERT).
+// Insert = Set with the presume-key-not-exists and newly-inserted flags (how TiDB writes the row key of an INSERT).
 func (c *Client) Insert(key, val []byte) string {
 	c.track(key)
 	n := c.callBegin("insert", Hx(key), Hx(val))
-	err := c.txn.txn.GetMemBuffer().SetWithFlags(key, val, kv.SetPresumeKeyNotExists)
+	err := c.txn.txn.GetMemBuffer().SetWithFlags(key, val, kv.SetPresumeKeyNotExists, kv.SetNewlyInserted)
 	c.callEnd(n, "insert", resOf(err), nil)
 	return Classify(err)
+}
+
+// InsertLocked is the pessimistic INSERT of one key as TiDB does it: the write goes to a staging buffer with the
+// presume-not-exists flag, then the key is locked (the lock request carries the not-exist assertion); if the lock fails the
+// statement's write is rolled back (staging clean-up) and the transaction is as before.  The trace shows the `lock` call
+// and, only if it succeeded, the `insert` call right after it (both are client-local facts at that point).
+func (c *Client) InsertLocked(key, val []byte, flags string) string {
+	mb := c.txn.txn.GetMemBuffer()
+	h := mb.Staging()
+	if err := mb.SetWithFlags(key, val, kv.SetPresumeKeyNotExists, kv.SetNewlyInserted); err != nil {
+		mb.Cleanup(h)
+		return Classify(err)
+	}
+	res := c.Lock([][]byte{key}, flags)
+	if res != "ok" {
+		mb.Cleanup(h)
+		return res
+	}
+	mb.Release(h)
+	c.track(key)
+	n := c.callBegin("insert", Hx(key), Hx(val))
+	c.callEnd(n, "insert", "ok", nil)
+	return "ok"
 }
 
 func (c *Client) Delete(key []byte) string {
@@ -484,7 +508,7 @@ func (s *Snap) Get(key []byte) string {
 	c.track(key)
 	n := c.callBegin("snapget", u(s.ts), Hx(key), s.opts())
 	e, err := s.s.Get(context.Background(), key)
-	if err != nil && !tikverr.IsErrNotFound(err) {
+	if err != nil {
 		c.callEnd(n, "snapget", errRes(err), nil)
 		return Classify(err)
 	}
